@@ -42,6 +42,11 @@ def run(tier):
                          events=[], nan=[k + 2], tds=dict(tstep=1 / 30, no_tqdm=1)))
     real.append(dict(sid="criteria[fault 1.0s]", case="kundur/kundur_full.json", family="crit", segs=[3.0],
                      events=[dict(add="Fault", bus=7, tf=0.1, tc=1.1, xf=1e-4)], tds=dict(tstep=1 / 30, no_tqdm=1)))
+    # disturbances that switch no branch (the routine's bookkeeping for the criterion is refreshed by the connectivity check)
+    real.append(dict(sid="criteria[smib fault 0.45s]", case="smib/SMIB.xlsx", family="crit", segs=[4.0],
+                     events=[dict(add="Fault", bus=1, tf=0.1, tc=0.55, xf=1e-4)], tds=dict(tstep=1 / 60, no_tqdm=1)))
+    real.append(dict(sid="criteria[ieee14 fault 0.8s]", case="ieee14/ieee14_full.xlsx", family="crit", segs=[3.0],
+                     events=[dict(add="Fault", bus=2, tf=0.2, tc=1.0, xf=1e-4)], tds=dict(tstep=1 / 30, no_tqdm=1)))
     out = tdsfam.run_and_validate(real, rep, timeout=900, label="TDS failure exits")
     tdsfam.judge(PID, out, rep)
     nfail = sum(1 for _, o in out if o["status"] == "ok" and any(e["e"] == "run_end" and not e["ret"] for e in o["trace"]["ev"]))
